@@ -126,6 +126,10 @@ func c14Cases(seed uint64, tier string) []core.Case {
 		"delP2PCol", "addP2PDoc", "delP2PDoc", "patchSchema", "query", "restart", "setReplicator", "addP2PCol", "addP2PDoc", "create", "createIndex", "delReplicator", "restart", "addSchema", "setReplicator", "query"}
 	cs = append(cs, core.MkCase("twin/anchor/p2p", 4, c14Params{Profile: "p2p", Mode: "twin", Script: p2pScript}))
 	cs = append(cs, core.MkCase("crash/anchor/p2p", 5, c14Params{Profile: "p2p", Mode: "crash", Script: p2pScript[:16]}))
+	// two replicators with different collection sets, then a restart (routing table rebuilt from the store)
+	splitScript := []string{"addSchema", "addSchema", "create", "create", "setReplicatorSplit0", "setReplicatorSplit1", "query", "restart", "create", "query", "restart", "query"}
+	cs = append(cs, core.MkCase("twin/anchor/p2p-split-replicators", 6, c14Params{Profile: "p2p", Mode: "twin", Script: splitScript}))
+	cs = append(cs, core.MkCase("crash/anchor/p2p-split-replicators", 7, c14Params{Profile: "p2p", Mode: "crash", Script: splitScript[:7]}))
 
 	rng := rand.New(rand.NewPCG(seed, 1414))
 	nTwin, nCrash := tierN(tier, 150, 1600), tierN(tier, 30, 500)
@@ -452,6 +456,18 @@ func (x *c14Run) p2pState(cn *c14Node) map[string]any {
 	}
 	sort.Strings(docs)
 	out["documents"] = docs
+	// the in-memory routing state rebuilt from the peer store on start (hook H3): which peers each
+	// collection is pushed to, and which pubsub topics are subscribed
+	routing, topics := cn.peer.VerifReplicatorRouting()
+	for col, peers := range routing {
+		if len(peers) == 0 {
+			// a collection whose last replicator was removed keeps an empty set in memory;
+			// that routes nothing, exactly like the absent entry of a restarted node
+			delete(routing, col)
+		}
+	}
+	out["routing"] = routing
+	out["topics"] = topics
 	return out
 }
 
@@ -1395,6 +1411,18 @@ func (x *c14Run) opP2P(kind string) (c14Op, bool) {
 		return c14Op{Kind: kind, Desc: fmt.Sprintf("%s %v", t.ID, names), Schema: true, Allocs: "replicator", F: func(cn *c14Node) any {
 			return res(cn, x.awaitReplicator(cn, func() error { return cn.peer.SetReplicator(x.ctx, t, names...) }))
 		}}, true
+	case "setReplicatorSplit0", "setReplicatorSplit1":
+		// deterministic shape: replicator i gets exactly the i-th collection (two replicators with
+		// DIFFERENT collection sets on one node: the routing table rebuilt on start must keep them apart)
+		i := int(kind[len(kind)-1] - '0')
+		ns := x.colNames()
+		if len(ns) < 2 {
+			return c14Op{}, false
+		}
+		t, names := x.targets[i], []string{ns[i]}
+		return c14Op{Kind: "setReplicator", Desc: fmt.Sprintf("%s %v", t.ID, names), Schema: true, Allocs: "replicator", F: func(cn *c14Node) any {
+			return res(cn, x.awaitReplicator(cn, func() error { return cn.peer.SetReplicator(x.ctx, t, names...) }))
+		}}, true
 	case "delReplicator":
 		t, names := x.p2pTarget(), x.someColNames(1)
 		return c14Op{Kind: kind, Desc: fmt.Sprintf("%s %v", t.ID, names), Schema: true, F: func(cn *c14Node) any {
@@ -1433,7 +1461,7 @@ func (x *c14Run) opP2P(kind string) (c14Op, bool) {
 
 func (x *c14Run) makeOp(kind string) (c14Op, bool) {
 	switch kind {
-	case "setReplicator", "delReplicator", "addP2PCol", "delP2PCol", "addP2PDoc", "delP2PDoc":
+	case "setReplicator", "delReplicator", "addP2PCol", "delP2PCol", "addP2PDoc", "delP2PDoc", "setReplicatorSplit0", "setReplicatorSplit1":
 		return x.opP2P(kind)
 	case "addSchema":
 		return x.opAddSchema()
